@@ -696,7 +696,14 @@ def c17(tier):
     b = _driver_rules("C17", tier, lambda s: any(nm.startswith("wt_") for nm in _names(s)),
                       ["driver-level: WebTransport uni/bidi streams naming the live session, a valid unused session, a huge one and "
                        "non-session stream ids, alone and interleaved with live traffic; foreign datagrams are covered by C03"])
-    return combine("C17", tier, [("ids", a), ("driver", b)])
+    # datagrams of other sessions (every quarter id class, incl. ones that are no session id at all) are
+    # dropped and leave the live session undisturbed
+    import scen
+    dg = [x for x in scen.c03(tier, vlib.seed()) if x["meta"].get("family") in ("peer-to-app", "big-sid")]
+    c = e2e_check("C17", tier, dg, "C03Trace.tla", _corrupt_c03,
+                  ["foreign datagrams: quarter ids 1, 64, 2^60-1, non-shortest encodings and session 0 on a session with another id, "
+                   "interleaved with the live session's (judged by C03Trace)"], defer=True)
+    return combine("C17", tier, [("ids", a), ("driver", b), ("datagrams", c)])
 
 
 def c18(tier):
@@ -726,12 +733,19 @@ def _corrupt_c16(events):
 
 def c16(tier):
     import scen
-    return e2e_check(
+    combine.t0 = time.time()
+    # what the sans-IO encoders produce (every writer path incl. partial writes) decodes under the reference
+    a = codec_check("C16", tier, ["enc"], [],
+                    ["encoders: every frame / stream header / SETTINGS / field section / datagram writer incl. the asynchronous ones "
+                     "under short writes, decoded by the reference (shared with C14)"],
+                    _case_basic, _corrupt_size, defer=True)
+    b = e2e_check(
         "C16", tier, scen.c16(tier, vlib.seed()), "C16Trace.tla", _corrupt_c16,
         ["a raw QUIC peer records verbatim every stream, datagram and close/stop code the endpoint emits: client role "
-         "(request for URL/header classes), server role (five decisions with extra fields), WebTransport streams and datagrams, "
-         "and error paths of the C12 catalogue; judged with Wire/Qpack/Huffman reference decoders only"],
-        mc_cfgs=[("WireMC.tla", "WireMC_quick.cfg")], par=8, threads=4)
+         "(request for URL/header classes), server role (five decisions with extra fields), WebTransport streams and datagrams "
+         "(session ids 0, 64, 252, 256), and error paths of the C12 catalogue; judged with Wire/Qpack/Huffman reference decoders only"],
+        mc_cfgs=[("WireMC.tla", "WireMC_quick.cfg")], par=8, threads=4, defer=True)
+    return combine("C16", tier, [("encoders", a), ("wire", b)])
 
 
 PROPS["C16"] = c16
